@@ -122,6 +122,15 @@ def gen_int(rng, depth=0, allow_bind=None, open_range=True):
         hi = lo + rng.choice([0, 1, 2, 5])
         return Pat(f"{lo}..={hi}", lambda v, b, lo=lo, hi=hi: lo <= v <= hi)
     if r < 0.72 and open_range:
+        # ranges with one end open, and (exclusive) `lo..hi`
+        form = rng.choice(["from", "from", "to_incl", "to_incl", "excl"])
+        if form == "to_incl":
+            hi = rng.choice([0, 1, 2, 5])
+            return Pat(f"..={hi}", lambda v, b, hi=hi: v <= hi)
+        if form == "excl":
+            lo = rng.choice([0, 1, 2])
+            hi = lo + rng.choice([1, 2, 5])
+            return Pat(f"{lo}..{hi}", lambda v, b, lo=lo, hi=hi: lo <= v < hi)
         lo = rng.choice([1, 2, 3])
         return Pat(f"{lo}..", lambda v, b, lo=lo: v >= lo)
     if r < 0.9:
@@ -246,25 +255,45 @@ def gen_cmp(rng, tyname):
 # cases
 
 
+import re as _re
+# a stand-alone identifier `a` or `b` (not part of a longer name, a string/byte-string prefix, a path or a macro name)
+_RENAME_RE = _re.compile(r"(?<![\w\"'.:])(a|b)(?![\w\"'!(:])")
+HOSTILE_NAMES = [("a0", "a1"), ("a1", "a0"), ("a1", "a2"), ("l0", "l1"), ("l1", "l0"), ("m0", "m1"), ("m1", "m0"),
+                 ("m1", "l0"), ("l0", "a1"), ("a2", "m0"), ("m2", "l1"), ("reporter", "mismatch"), ("_m", "l0")]
+
+
 @dataclass
 class Case:
     types: List[str]
     alts: List[List[Pat]]          # 1..2 alternatives, each one pattern per argument
     guard: Optional[tuple] = None  # (rust source, python function(binds) -> bool)
 
+    # Binding names as written in the program. The generator works with `a` / `b`; a case may carry a renaming to
+    # names that coincide with identifiers the macro generates itself (`a<i>` closure parameters, `m<i>` binders and
+    # `l<n>` operand locals of eq!/ne!): user bindings and operands must never be captured by them.
+    rename: Optional[dict] = None
+
+    def r(self, s):
+        if not self.rename or s is None:
+            return s
+        return _RENAME_RE.sub(lambda m: self.rename.get(m.group(1), m.group(1)), s)
+
+    def guard_src(self):
+        return self.r(self.guard[0]) if self.guard else None
+
     def key(self):
-        return json.dumps([self.types, [[p.src for p in a] for a in self.alts], self.guard[0] if self.guard else None])
+        return json.dumps([self.types, [[self.r(p.src) for p in a] for a in self.alts], self.guard_src()])
 
     def matching_src(self):
         n = len(self.types)
         if n == 0 and len(self.alts) == 1 and not self.guard:
             return ""
         if len(self.alts) == 1 and not self.guard:
-            return ", ".join(p.src for p in self.alts[0])
-        parts = ["(" + ", ".join(p.src for p in a) + ")" for a in self.alts]
+            return ", ".join(self.r(p.src) for p in self.alts[0])
+        parts = ["(" + ", ".join(self.r(p.src) for p in a) + ")" for a in self.alts]
         s = " | ".join(parts)
         if self.guard:
-            s += " if " + self.guard[0]
+            s += " if " + self.guard_src()
         return s
 
     def accepts(self, values):
@@ -293,7 +322,7 @@ class Case:
             return None   # rendering of explicit `()` alternatives / guards is not pinned down
         if n == 0:
             return "()"
-        parts = ["(" + ", ".join(p.rendered() for p in a) + ")" for a in self.alts]
+        parts = ["(" + ", ".join(self.r(p.rendered()) for p in a) + ")" for a in self.alts]
         s = " | ".join(parts)
         if self.guard:
             s += " if {guard}"
@@ -364,8 +393,46 @@ def gen_or_guard_cmp_case(rng: random.Random) -> Case:
     return Case(types, alts, guard)
 
 
+def gen_hygiene_case(rng: random.Random) -> Case:
+    """A binding and an eq!/ne! operand of the same type in one alternative, the binding named like an identifier the
+    macro generates for *that* alternative (the closure parameter `a<k>` / binder `m<k>` of the compared position, the
+    operand local `l<n>`): the comparison must still be made between argument k and the operand."""
+    t = rng.choice(["i32", "i32", "opt", "enum"])
+    types = [t, t] + rng.choice([[], [], ["i32"], ["bool"]])
+    n_alts = 1 if rng.random() < 0.65 else 2
+    alts = []
+    k = rng.choice([0, 1])          # position of the comparison in the first alternative
+    for alt_no in range(n_alts):
+        kk = k if alt_no == 0 else rng.choice([0, 1])
+        alt = [None, None]
+        alt[kk] = gen_cmp(rng, t)
+        alt[1 - kk] = p_bind("a")
+        for x in types[2:]:
+            alt.append(GEN[x](rng) if rng.random() < 0.5 else p_wild())
+        alts.append(alt)
+    guard = None
+    if t == "i32" and rng.random() < 0.5:
+        kq = rng.choice([0, 1, 2, 3])
+        guard = rng.choice([(f"*a >= {kq}", lambda b, kq=kq: b["a"] >= kq),
+                            (f"*a != {kq}", lambda b, kq=kq: b["a"] != kq)])
+    c = Case(types, alts, guard)
+    c.rename = {"a": rng.choice([f"a{k}", f"a{k}", f"m{k}", f"m{1 - k}", "l0", "l0", "l1", f"a{1 - k}"])}
+    return c
+
+
 def gen_case(rng: random.Random) -> Case:
+    c = gen_case_plain(rng)
+    # every fourth case that binds something writes the bindings with names the macro uses itself
+    if c.rename is None and any(p.binds for a in c.alts for p in a) and rng.random() < 0.25:
+        x, y = rng.choice(HOSTILE_NAMES)
+        c.rename = {"a": x, "b": y}
+    return c
+
+
+def gen_case_plain(rng: random.Random) -> Case:
     r = rng.random()
+    if r < 0.05:
+        return gen_hygiene_case(rng)
     if r < 0.06:
         return gen_swap_case(rng)
     if r < 0.12:
@@ -483,15 +550,15 @@ def render_case(c: Case, idx: int):
                 op = "==" if p.cmp[0] == "eq" else "!="
                 guards.append(f"(v{i} {op} {p.cmp[1]})")
             else:
-                pats.append(p.src)
+                pats.append(c.r(p.src))
         if c.guard:
-            guards.insert(0, f"({c.guard[0]})")
+            guards.insert(0, f"({c.guard_src()})")
         g = (" if " + " && ".join(guards)) if guards else ""
         pat = pats[0] if n == 1 else "(" + ", ".join(pats) + ")"
         arms.append(f"            {pat}{g} => true,")
     sc = scrut[0] if n == 1 else "(" + ", ".join(scrut) + ")"
     ref_match = f"match {sc} {{\n" + "\n".join(arms) + "\n            _ => false,\n        }" if n > 0 else \
-        (c.guard[0] if c.guard else "true")
+        (c.guard_src() if c.guard else "true")
     m_src = c.matching_src()
     dbg = ", ".join(f'format!("{{:?}}", v{i})' for i in range(n))
     # where the pattern is declared: on one line, or (every third case) the way rustfmt lays out a long invocation -
